@@ -688,7 +688,7 @@ class Qobj:
 
     def dag(self) -> Qobj:
         """Get the Hermitian adjoint of the quantum object."""
-        if self._isherm:
+        if self._isherm and self._dims[0] == self._dims[1]:
             return self.copy()
         return Qobj(_data.adjoint(self._data),
                     dims=Dimensions(self._dims[0], self._dims[1]),
